@@ -105,6 +105,9 @@ class Sim:
         self._old_impl_socket: Any = None
         self.user_on_stop: list[tuple[int, float, str, bool]] = []
         self.packet_hook: Any = None
+        self.timer_fired: list[tuple[int, float, str]] = []    # (seq, t, callback name) of every loop timer that ran
+        self.suspend_from = 0.0
+        self.suspend_until: float | None = None
         self._packet_starts: list[int] = []
         self.packet_spans: list[tuple[int, int]] = []
         self.harness_errors: list[str] = []
@@ -246,6 +249,12 @@ class Sim:
         for fn in self.post_step:
             fn()
         return True
+
+    def suspend_process(self, t_from: float, t_to: float) -> None:
+        """The client process does not run between virtual times t_from and t_to (the simulated world does)."""
+        def arm() -> None:
+            self.suspend_from, self.suspend_until = t_from, t_to
+        self.net.at(t_from, arm)
 
     def small_step(self, dt: float = 1e-4) -> bool:
         """One event-loop iteration during which virtual time advances by at most dt (step() alone jumps to the next timer, e.g. the keepalive)."""
